@@ -9,10 +9,12 @@ What is modelled exactly and what is not
 * key names: bytes `< 0x80` are modelled exactly (escapes `\" \\ \b \f \n \r \t`, `\u00XX` for the
   other control characters and for `< > &`); names containing bytes `≥ 0x80` are reported as
   `unmodelled` (Go inspects UTF-8 validity and U+2028/9 there).
-* parsing: a compact object whose keys are exactly among `k kw wfk cph np`, each at most once,
-  string values with the escapes above, ids as plain decimal numbers. Everything else (other keys,
-  other capitalisation, whitespace, duplicate keys, other value kinds, `\uXXXX` beyond 00XX, bytes
-  ≥ 0x80) is `unmodelled` — the harness then judges the case with its monitor only.
+* parsing: an object with members in any order, insignificant whitespace (space, tab, CR) between
+  tokens, unknown members with scalar values ignored (as Go does), string values with every
+  two-character escape, `\uXXXX` for non-surrogate code points (re-encoded as UTF-8) and well-formed
+  raw UTF-8, ids as plain decimal numbers. Everything else (names that match a field only
+  case-insensitively, duplicate members, nested values, surrogate pairs, ill-formed UTF-8, exponents)
+  is `unmodelled` — the harness then judges the case with its monitor only.
 -/
 import KitModel.Go.Prelude
 import KitModel.Enc
@@ -139,16 +141,52 @@ inductive Tok where
   | str (s : Bytes)
   | num (n : Nat)
   | null
+  | other   -- true / false (only ever stored for names the manifest does not have)
   deriving Repr
 
+/-- JSON insignificant whitespace (a manifest line cannot contain a line feed). -/
+def isWs (c : UInt8) : Bool := c == 32 || c == 9 || c == 13
+
+def skipWs : Bytes → Bytes
+  | [] => []
+  | c :: rest => if isWs c then skipWs rest else c :: rest
+
+def isCont (c : UInt8) : Bool := decide (128 ≤ c.toNat ∧ c.toNat ≤ 191)
+
+/-- UTF-8 encoding of a code point of the Basic Multilingual Plane that is not a surrogate. -/
+def utf8Enc (cp : Nat) : Bytes :=
+  if cp < 128 then [UInt8.ofNat cp]
+  else if cp < 2048 then [UInt8.ofNat (192 + cp / 64), UInt8.ofNat (128 + cp % 64)]
+  else [UInt8.ofNat (224 + cp / 4096), UInt8.ofNat (128 + cp / 64 % 64), UInt8.ofNat (128 + cp % 64)]
+
 /-- A JSON string body after the opening quote: returns the unescaped bytes and what follows the
-    closing quote. `Except` error: `true` = certainly invalid JSON, `false` = unmodelled. -/
+    closing quote. `Except` error: `true` = certainly invalid JSON, `false` = unmodelled.
+    Modelled: every two-character escape, `\uXXXX` for non-surrogate code points (encoded as UTF-8, as
+    Go does), and well-formed UTF-8 sequences passed through. Not modelled: surrogate pairs, ill-formed
+    UTF-8 (Go substitutes U+FFFD). -/
 def parseStr : Nat → Bytes → Bytes → Except Bool (Bytes × Bytes)
   | 0, _, _ => .error false
   | _ + 1, [], _ => .error true
   | fuel + 1, c :: rest, acc =>
     if c = 34 then .ok (acc.reverse, rest)
-    else if c.toNat ≥ 128 then .error false
+    else if c.toNat ≥ 128 then
+      match rest with
+      | c2 :: r2 =>
+        if 194 ≤ c.toNat ∧ c.toNat ≤ 223 ∧ isCont c2 then parseStr fuel r2 (c2 :: c :: acc)
+        else
+          match r2 with
+          | c3 :: r3 =>
+            if 224 ≤ c.toNat ∧ c.toNat ≤ 239 ∧ isCont c2 ∧ isCont c3 ∧ (c.toNat = 224 → 160 ≤ c2.toNat) ∧
+                (c.toNat = 237 → c2.toNat ≤ 159) then parseStr fuel r3 (c3 :: c2 :: c :: acc)
+            else
+              match r3 with
+              | c4 :: r4 =>
+                if 240 ≤ c.toNat ∧ c.toNat ≤ 244 ∧ isCont c2 ∧ isCont c3 ∧ isCont c4 ∧ (c.toNat = 240 → 144 ≤ c2.toNat) ∧
+                    (c.toNat = 244 → c2.toNat ≤ 143) then parseStr fuel r4 (c4 :: c3 :: c2 :: c :: acc)
+                else .error false
+              | [] => .error false
+          | [] => .error false
+      | [] => .error true
     else if c.toNat < 32 then .error true
     else if c = 92 then
       match rest with
@@ -160,10 +198,13 @@ def parseStr : Nat → Bytes → Bytes → Except Bool (Bytes × Bytes)
       | 110 :: r => parseStr fuel r (10 :: acc)
       | 114 :: r => parseStr fuel r (13 :: acc)
       | 116 :: r => parseStr fuel r (9 :: acc)
-      | 117 :: 48 :: 48 :: h1 :: h2 :: r =>
-        match hexv h1, hexv h2 with
-        | some a, some b => if a * 16 + b < 128 then parseStr fuel r (UInt8.ofNat (a * 16 + b) :: acc) else .error false
-        | _, _ => .error true
+      | 117 :: h1 :: h2 :: h3 :: h4 :: r =>
+        match hexv h1, hexv h2, hexv h3, hexv h4 with
+        | some a, some b, some c', some d =>
+          let cp := ((a * 16 + b) * 16 + c') * 16 + d
+          if 55296 ≤ cp ∧ cp ≤ 57343 then .error false
+          else parseStr fuel r ((utf8Enc cp).reverse ++ acc)
+        | _, _, _, _ => .error true
       | _ => .error false
     else parseStr fuel rest (c :: acc)
 
@@ -179,6 +220,8 @@ def parseValue (s : Bytes) : Except Bool (Tok × Bytes) :=
     | .ok (v, r) => .ok (.str v, r)
     | .error b => .error b
   | 110 :: 117 :: 108 :: 108 :: rest => .ok (.null, rest)
+  | 116 :: 114 :: 117 :: 101 :: rest => .ok (.other, rest)
+  | 102 :: 97 :: 108 :: 115 :: 101 :: rest => .ok (.other, rest)
   | c :: rest =>
     if 49 ≤ c.toNat ∧ c.toNat ≤ 57 then
       let (n, r) := parseDigits (c :: rest) 0
@@ -191,6 +234,9 @@ def parseValue (s : Bytes) : Except Bool (Tok × Bytes) :=
       match rest with
       | 44 :: _ => .ok (.num 0, rest)
       | 125 :: _ => .ok (.num 0, rest)
+      | 32 :: _ => .ok (.num 0, rest)
+      | 9 :: _ => .ok (.num 0, rest)
+      | 13 :: _ => .ok (.num 0, rest)
       | _ => .error false
     else .error false
   | [] => .error true
@@ -202,33 +248,38 @@ structure Fields where
   cph : Option Tok := none
   np : Option Tok := none
 
-/-- Store a member; unknown names and duplicates are outside the modelled subset. -/
+def lowerAscii (s : Bytes) : Bytes := s.map fun c => if 65 ≤ c.toNat ∧ c.toNat ≤ 90 then c + 32 else c
+
+/-- Store a member. Duplicates, and names that match a manifest field only case-insensitively (Go
+    accepts those), are outside the modelled subset; any other name is ignored, as Go does. -/
 def setField (f : Fields) (key : Bytes) (v : Tok) : Except Bool Fields :=
   if key = kK then (if f.k.isSome then .error false else .ok { f with k := some v })
   else if key = kKW then (if f.kw.isSome then .error false else .ok { f with kw := some v })
   else if key = kWFK then (if f.wfk.isSome then .error false else .ok { f with wfk := some v })
   else if key = kCPH then (if f.cph.isSome then .error false else .ok { f with cph := some v })
   else if key = kNP then (if f.np.isSome then .error false else .ok { f with np := some v })
-  else .error false
+  else if [kK, kKW, kWFK, kCPH, kNP].contains (lowerAscii key) then .error false
+  else .ok f
 
+/-- `"name" : value` members separated by commas up to the closing brace; whitespace between tokens. -/
 def parseMembers : Nat → Bytes → Fields → Except Bool Fields
   | 0, _, _ => .error false
   | fuel + 1, s, f =>
-    match s with
+    match skipWs s with
     | 34 :: rest =>
       match parseStr (rest.length + 1) rest [] with
       | .error b => .error b
       | .ok (key, r1) =>
-        match r1 with
+        match skipWs r1 with
         | 58 :: r2 =>
-          match parseValue r2 with
+          match parseValue (skipWs r2) with
           | .error b => .error b
           | .ok (v, r3) =>
             match setField f key v with
             | .error b => .error b
             | .ok f' =>
-              match r3 with
-              | [125] => .ok f'
+              match skipWs r3 with
+              | 125 :: r4 => if (skipWs r4).isEmpty then .ok f' else .error true
               | 44 :: r4 => parseMembers fuel r4 f'
               | _ => .error false
         | _ => .error false
@@ -242,6 +293,7 @@ def bytesField (t : Option Tok) : Except Bool Bytes :=
     | some b => .ok b
     | none => .error true
   | some (.num _) => .error true
+  | some .other => .error true
 
 /-- ids: a missing field leaves the empty name, which `Validate` rejects. -/
 def idField (ids : List Nat) (t : Option Tok) : Except Bool Nat :=
@@ -250,12 +302,14 @@ def idField (ids : List Nat) (t : Option Tok) : Except Bool Nat :=
   | some (.num n) => if ids.contains n then .ok n else .error true
   | some .null => .error true
   | some (.str _) => .error true
+  | some .other => .error true
 
 def parseManifest (P : EncParams) (s : Bytes) : Parsed :=
-  match s with
+  match skipWs s with
   | 123 :: rest =>
-    if rest = [125] then .invalid
-    else
+    match skipWs rest with
+    | 125 :: _ => .invalid   -- `{}` (every field missing) or garbage after it: rejected either way
+    | _ =>
       match parseMembers (rest.length + 1) rest {} with
       | .error true => .invalid
       | .error false => .unmodelled "json"
@@ -265,6 +319,7 @@ def parseManifest (P : EncParams) (s : Bytes) : Parsed :=
           | some (.str s) => .ok s
           | some .null => .ok []
           | some (.num _) => .error true
+          | some .other => .error true
         match kName, idField P.kwIds f.kw, bytesField f.wfk, idField P.cphIds f.cph, bytesField f.np with
         | .ok k, .ok kw, .ok wfk, .ok cph, .ok np => .ok ⟨k, kw, wfk, cph, np⟩
         | _, _, _, _, _ => .invalid
